@@ -47,7 +47,7 @@ FAULTABLE = ("action", "hook", "subscriber", "listener", "callable")
 
 def plan(tier):
     q = tier == "quick"
-    return [{"name": "main", "examples": 1500 if q else 20000}, {"name": "abort", "examples": 1200 if q else 20000}]
+    return [{"name": "main", "examples": 3000 if q else 20000}, {"name": "abort", "examples": 2400 if q else 20000}]
 
 
 # ----------------------------------------------------------------------------- generators
